@@ -421,6 +421,7 @@ void Polygon::apply_repetition(Array<Polygon*>& result) {
     Array<Vec2> offsets = {};
     repetition.get_offsets(offsets);
     repetition.clear();
+    if (offsets.count == 0) return;  // zero columns or rows: nothing to copy
 
     // Skip first offset (0, 0)
     Vec2* offset_p = offsets.items + 1;
